@@ -93,10 +93,14 @@ variable {K : Type} [Field K] [LinearOrder K] [IsStrictOrderedRing K]
 /-- QuadraticBezier.curvatureAtTime -/
 
 @[gen_def] def quad_curvatureAtTime_v (rpow : K → K → K) (p0x p0y p1x p1y p2x p2y t : K) : K :=
-  let v0 := ((1 : K) - t)
-  let v1 := ((((p1x - p0x) * (2 : K)) * v0) + (((p2x - p1x) * (2 : K)) * t))
-  let v2 := ((((p1y - p0y) * (2 : K)) * v0) + (((p2y - p1y) * (2 : K)) * t))
-  (((v1 * (p2y - p0y)) - (v2 * (p2x - p0x))) / (rpow ((v1 ^ (2 : ℕ)) + (v2 ^ (2 : ℕ))) ((3 : K) / 2)))
+  let v0 := ((p1x - p0x) * (2 : K))
+  let v1 := ((1 : K) - t)
+  let v2 := ((p2x - p1x) * (2 : K))
+  let v3 := ((v0 * v1) + (v2 * t))
+  let v4 := ((p2y - p1y) * (2 : K))
+  let v5 := ((p1y - p0y) * (2 : K))
+  let v6 := ((v5 * v1) + (v4 * t))
+  (((v3 * (v4 - v5)) - (v6 * (v2 - v0))) / (rpow ((v3 ^ (2 : ℕ)) + (v6 ^ (2 : ℕ))) ((3 : K) / 2)))
 
 @[gen_def] def quad_curvatureAtTime (rpow : K → K → K) (p0x p0y p1x p1y p2x p2y t : K) : List K :=
   [quad_curvatureAtTime_v rpow p0x p0y p1x p1y p2x p2y t]
@@ -116,30 +120,30 @@ variable {K : Type} [Field K] [LinearOrder K] [IsStrictOrderedRing K]
 
 /-- Line.normalAtTime -/
 
-@[gen_def] def line_normalAtTime (sqrt : K → K) (cos : K → K) (sin : K → K) (atan2 : K → K → K) (p0x p0y p1x p1y t : K) : List K :=
+@[gen_def] def line_normalAtTime (pi : K) (sqrt : K → K) (cos : K → K) (sin : K → K) (atan2 : K → K → K) (p0x p0y p1x p1y t : K) : List K :=
   if (sqrt (((cos (atan2 (p1y - p0y) (p1x - p0x))) * (cos (atan2 (p1y - p0y) (p1x - p0x)))) + ((sin (atan2 (p1y - p0y) (p1x - p0x))) * (sin (atan2 (p1y - p0y) (p1x - p0x)))))) = (0 : K) then
-    if (sqrt (((cos ((atan2 ((0 : K) - ((sin (atan2 (p1y - p0y) (p1x - p0x))) / (1 : K))) ((0 : K) - ((cos (atan2 (p1y - p0y) (p1x - p0x))) / (1 : K)))) + ((7853981633974483 : K) / 5000000000000000))) * (cos ((atan2 ((0 : K) - ((sin (atan2 (p1y - p0y) (p1x - p0x))) / (1 : K))) ((0 : K) - ((cos (atan2 (p1y - p0y) (p1x - p0x))) / (1 : K)))) + ((7853981633974483 : K) / 5000000000000000)))) + ((sin ((atan2 ((0 : K) - ((sin (atan2 (p1y - p0y) (p1x - p0x))) / (1 : K))) ((0 : K) - ((cos (atan2 (p1y - p0y) (p1x - p0x))) / (1 : K)))) + ((7853981633974483 : K) / 5000000000000000))) * (sin ((atan2 ((0 : K) - ((sin (atan2 (p1y - p0y) (p1x - p0x))) / (1 : K))) ((0 : K) - ((cos (atan2 (p1y - p0y) (p1x - p0x))) / (1 : K)))) + ((7853981633974483 : K) / 5000000000000000)))))) = (0 : K) then
+    if (sqrt (((cos ((atan2 ((0 : K) - ((sin (atan2 (p1y - p0y) (p1x - p0x))) / (1 : K))) ((0 : K) - ((cos (atan2 (p1y - p0y) (p1x - p0x))) / (1 : K)))) + (pi / (2 : K)))) * (cos ((atan2 ((0 : K) - ((sin (atan2 (p1y - p0y) (p1x - p0x))) / (1 : K))) ((0 : K) - ((cos (atan2 (p1y - p0y) (p1x - p0x))) / (1 : K)))) + (pi / (2 : K))))) + ((sin ((atan2 ((0 : K) - ((sin (atan2 (p1y - p0y) (p1x - p0x))) / (1 : K))) ((0 : K) - ((cos (atan2 (p1y - p0y) (p1x - p0x))) / (1 : K)))) + (pi / (2 : K)))) * (sin ((atan2 ((0 : K) - ((sin (atan2 (p1y - p0y) (p1x - p0x))) / (1 : K))) ((0 : K) - ((cos (atan2 (p1y - p0y) (p1x - p0x))) / (1 : K)))) + (pi / (2 : K))))))) = (0 : K) then
       let v0 := (atan2 (p1y - p0y) (p1x - p0x))
       let v1 := ((0 : K) - ((sin v0) / (1 : K)))
       let v2 := ((0 : K) - ((cos v0) / (1 : K)))
-      let v3 := ((atan2 v1 v2) + ((7853981633974483 : K) / 5000000000000000))
+      let v3 := ((atan2 v1 v2) + (pi / (2 : K)))
       let v4 := (sqrt ((v2 * v2) + (v1 * v1)))
       [((0 : K) - (((cos v3) / (1 : K)) * v4)), ((0 : K) - (((sin v3) / (1 : K)) * v4))]
     else
       let v0 := (atan2 (p1y - p0y) (p1x - p0x))
       let v1 := ((0 : K) - ((sin v0) / (1 : K)))
       let v2 := ((0 : K) - ((cos v0) / (1 : K)))
-      let v3 := ((atan2 v1 v2) + ((7853981633974483 : K) / 5000000000000000))
+      let v3 := ((atan2 v1 v2) + (pi / (2 : K)))
       let v4 := (sqrt (((cos v3) * (cos v3)) + ((sin v3) * (sin v3))))
       let v5 := (sqrt ((v2 * v2) + (v1 * v1)))
       [((0 : K) - (((cos v3) / v4) * v5)), ((0 : K) - (((sin v3) / v4) * v5))]
   else
-    if (sqrt (((cos ((atan2 ((0 : K) - ((sin (atan2 (p1y - p0y) (p1x - p0x))) / (sqrt (((cos (atan2 (p1y - p0y) (p1x - p0x))) * (cos (atan2 (p1y - p0y) (p1x - p0x)))) + ((sin (atan2 (p1y - p0y) (p1x - p0x))) * (sin (atan2 (p1y - p0y) (p1x - p0x)))))))) ((0 : K) - ((cos (atan2 (p1y - p0y) (p1x - p0x))) / (sqrt (((cos (atan2 (p1y - p0y) (p1x - p0x))) * (cos (atan2 (p1y - p0y) (p1x - p0x)))) + ((sin (atan2 (p1y - p0y) (p1x - p0x))) * (sin (atan2 (p1y - p0y) (p1x - p0x))))))))) + ((7853981633974483 : K) / 5000000000000000))) * (cos ((atan2 ((0 : K) - ((sin (atan2 (p1y - p0y) (p1x - p0x))) / (sqrt (((cos (atan2 (p1y - p0y) (p1x - p0x))) * (cos (atan2 (p1y - p0y) (p1x - p0x)))) + ((sin (atan2 (p1y - p0y) (p1x - p0x))) * (sin (atan2 (p1y - p0y) (p1x - p0x)))))))) ((0 : K) - ((cos (atan2 (p1y - p0y) (p1x - p0x))) / (sqrt (((cos (atan2 (p1y - p0y) (p1x - p0x))) * (cos (atan2 (p1y - p0y) (p1x - p0x)))) + ((sin (atan2 (p1y - p0y) (p1x - p0x))) * (sin (atan2 (p1y - p0y) (p1x - p0x))))))))) + ((7853981633974483 : K) / 5000000000000000)))) + ((sin ((atan2 ((0 : K) - ((sin (atan2 (p1y - p0y) (p1x - p0x))) / (sqrt (((cos (atan2 (p1y - p0y) (p1x - p0x))) * (cos (atan2 (p1y - p0y) (p1x - p0x)))) + ((sin (atan2 (p1y - p0y) (p1x - p0x))) * (sin (atan2 (p1y - p0y) (p1x - p0x)))))))) ((0 : K) - ((cos (atan2 (p1y - p0y) (p1x - p0x))) / (sqrt (((cos (atan2 (p1y - p0y) (p1x - p0x))) * (cos (atan2 (p1y - p0y) (p1x - p0x)))) + ((sin (atan2 (p1y - p0y) (p1x - p0x))) * (sin (atan2 (p1y - p0y) (p1x - p0x))))))))) + ((7853981633974483 : K) / 5000000000000000))) * (sin ((atan2 ((0 : K) - ((sin (atan2 (p1y - p0y) (p1x - p0x))) / (sqrt (((cos (atan2 (p1y - p0y) (p1x - p0x))) * (cos (atan2 (p1y - p0y) (p1x - p0x)))) + ((sin (atan2 (p1y - p0y) (p1x - p0x))) * (sin (atan2 (p1y - p0y) (p1x - p0x)))))))) ((0 : K) - ((cos (atan2 (p1y - p0y) (p1x - p0x))) / (sqrt (((cos (atan2 (p1y - p0y) (p1x - p0x))) * (cos (atan2 (p1y - p0y) (p1x - p0x)))) + ((sin (atan2 (p1y - p0y) (p1x - p0x))) * (sin (atan2 (p1y - p0y) (p1x - p0x))))))))) + ((7853981633974483 : K) / 5000000000000000)))))) = (0 : K) then
+    if (sqrt (((cos ((atan2 ((0 : K) - ((sin (atan2 (p1y - p0y) (p1x - p0x))) / (sqrt (((cos (atan2 (p1y - p0y) (p1x - p0x))) * (cos (atan2 (p1y - p0y) (p1x - p0x)))) + ((sin (atan2 (p1y - p0y) (p1x - p0x))) * (sin (atan2 (p1y - p0y) (p1x - p0x)))))))) ((0 : K) - ((cos (atan2 (p1y - p0y) (p1x - p0x))) / (sqrt (((cos (atan2 (p1y - p0y) (p1x - p0x))) * (cos (atan2 (p1y - p0y) (p1x - p0x)))) + ((sin (atan2 (p1y - p0y) (p1x - p0x))) * (sin (atan2 (p1y - p0y) (p1x - p0x))))))))) + (pi / (2 : K)))) * (cos ((atan2 ((0 : K) - ((sin (atan2 (p1y - p0y) (p1x - p0x))) / (sqrt (((cos (atan2 (p1y - p0y) (p1x - p0x))) * (cos (atan2 (p1y - p0y) (p1x - p0x)))) + ((sin (atan2 (p1y - p0y) (p1x - p0x))) * (sin (atan2 (p1y - p0y) (p1x - p0x)))))))) ((0 : K) - ((cos (atan2 (p1y - p0y) (p1x - p0x))) / (sqrt (((cos (atan2 (p1y - p0y) (p1x - p0x))) * (cos (atan2 (p1y - p0y) (p1x - p0x)))) + ((sin (atan2 (p1y - p0y) (p1x - p0x))) * (sin (atan2 (p1y - p0y) (p1x - p0x))))))))) + (pi / (2 : K))))) + ((sin ((atan2 ((0 : K) - ((sin (atan2 (p1y - p0y) (p1x - p0x))) / (sqrt (((cos (atan2 (p1y - p0y) (p1x - p0x))) * (cos (atan2 (p1y - p0y) (p1x - p0x)))) + ((sin (atan2 (p1y - p0y) (p1x - p0x))) * (sin (atan2 (p1y - p0y) (p1x - p0x)))))))) ((0 : K) - ((cos (atan2 (p1y - p0y) (p1x - p0x))) / (sqrt (((cos (atan2 (p1y - p0y) (p1x - p0x))) * (cos (atan2 (p1y - p0y) (p1x - p0x)))) + ((sin (atan2 (p1y - p0y) (p1x - p0x))) * (sin (atan2 (p1y - p0y) (p1x - p0x))))))))) + (pi / (2 : K)))) * (sin ((atan2 ((0 : K) - ((sin (atan2 (p1y - p0y) (p1x - p0x))) / (sqrt (((cos (atan2 (p1y - p0y) (p1x - p0x))) * (cos (atan2 (p1y - p0y) (p1x - p0x)))) + ((sin (atan2 (p1y - p0y) (p1x - p0x))) * (sin (atan2 (p1y - p0y) (p1x - p0x)))))))) ((0 : K) - ((cos (atan2 (p1y - p0y) (p1x - p0x))) / (sqrt (((cos (atan2 (p1y - p0y) (p1x - p0x))) * (cos (atan2 (p1y - p0y) (p1x - p0x)))) + ((sin (atan2 (p1y - p0y) (p1x - p0x))) * (sin (atan2 (p1y - p0y) (p1x - p0x))))))))) + (pi / (2 : K))))))) = (0 : K) then
       let v0 := (atan2 (p1y - p0y) (p1x - p0x))
       let v1 := (sqrt (((cos v0) * (cos v0)) + ((sin v0) * (sin v0))))
       let v2 := ((0 : K) - ((sin v0) / v1))
       let v3 := ((0 : K) - ((cos v0) / v1))
-      let v4 := ((atan2 v2 v3) + ((7853981633974483 : K) / 5000000000000000))
+      let v4 := ((atan2 v2 v3) + (pi / (2 : K)))
       let v5 := (sqrt ((v3 * v3) + (v2 * v2)))
       [((0 : K) - (((cos v4) / (1 : K)) * v5)), ((0 : K) - (((sin v4) / (1 : K)) * v5))]
     else
@@ -147,7 +151,7 @@ variable {K : Type} [Field K] [LinearOrder K] [IsStrictOrderedRing K]
       let v1 := (sqrt (((cos v0) * (cos v0)) + ((sin v0) * (sin v0))))
       let v2 := ((0 : K) - ((sin v0) / v1))
       let v3 := ((0 : K) - ((cos v0) / v1))
-      let v4 := ((atan2 v2 v3) + ((7853981633974483 : K) / 5000000000000000))
+      let v4 := ((atan2 v2 v3) + (pi / (2 : K)))
       let v5 := (sqrt (((cos v4) * (cos v4)) + ((sin v4) * (sin v4))))
       let v6 := (sqrt ((v3 * v3) + (v2 * v2)))
       [((0 : K) - (((cos v4) / v5) * v6)), ((0 : K) - (((sin v4) / v5) * v6))]
@@ -228,7 +232,7 @@ def Gen.dispatchCurv (tbl : FnTable) (name : String) (args : List ℚ) : Option 
   | "cubic_curvatureAtTime", [a0, a1, a2, a3, a4, a5, a6, a7, a8] => some (Gen.cubic_curvatureAtTime (tbl.rpow) a0 a1 a2 a3 a4 a5 a6 a7 a8)
   | "quad_curvatureAtTime", [a0, a1, a2, a3, a4, a5, a6] => some (Gen.quad_curvatureAtTime (tbl.rpow) a0 a1 a2 a3 a4 a5 a6)
   | "line_tangentAtTime", [a0, a1, a2, a3, a4] => some (Gen.line_tangentAtTime (tbl.sqrt) (tbl.cos) (tbl.sin) (tbl.atan2) a0 a1 a2 a3 a4)
-  | "line_normalAtTime", [a0, a1, a2, a3, a4] => some (Gen.line_normalAtTime (tbl.sqrt) (tbl.cos) (tbl.sin) (tbl.atan2) a0 a1 a2 a3 a4)
+  | "line_normalAtTime", [a0, a1, a2, a3, a4] => some (Gen.line_normalAtTime (tbl.pi) (tbl.sqrt) (tbl.cos) (tbl.sin) (tbl.atan2) a0 a1 a2 a3 a4)
   | "line_curvatureAtTime", [a0, a1, a2, a3, a4] => some (Gen.line_curvatureAtTime a0 a1 a2 a3 a4)
   | "cubic_startAngle", [a0, a1, a2, a3, a4, a5, a6, a7] => some (Gen.cubic_startAngle (tbl.atan2) a0 a1 a2 a3 a4 a5 a6 a7)
   | "cubic_endAngle", [a0, a1, a2, a3, a4, a5, a6, a7] => some (Gen.cubic_endAngle (tbl.atan2) a0 a1 a2 a3 a4 a5 a6 a7)
